@@ -1,0 +1,11 @@
+//! Verification hooks for the /verif machinery.
+//!
+//! Compiled only with the `verif_hooks` cargo feature. Nothing here changes behaviour unless a
+//! harness installs a callback or an override.
+#![allow(missing_docs)]
+
+/// The private `$ENV{NAME}` scanner used by the file appenders and the fixed-window roller.
+#[cfg(any(feature = "file_appender", feature = "rolling_file_appender"))]
+pub fn expand_env_vars(path: &str) -> String {
+    crate::append::verif_expand_env_vars(path)
+}
